@@ -164,7 +164,9 @@ func runC10Adapters(c c10aCase) *vh.Outcome {
 		ids[i] = uint16(i + 1)
 	}
 	target := c.Target % c.N
-	site := func(what string) string { return fmt.Sprintf("C10/adapter-%s/%s/%s/%s", what, c.Scheme, c.Phase, c.State) }
+	site := func(what string) string {
+		return fmt.Sprintf("C10/adapter-%s/%s/%s/%s", what, c.Scheme, c.Phase, c.State)
+	}
 
 	// the input, prepared up front
 	type input struct {
@@ -195,6 +197,15 @@ func runC10Adapters(c c10aCase) *vh.Outcome {
 			bigBurst = true
 		}
 		inputs = append(inputs, input{data: mutateFrame(pool.frames, m), from: from, bcast: f.Broadcast, count: m.Count})
+	}
+	total := 0
+	for _, in := range inputs {
+		total += in.count
+	}
+	if total > 1000 {
+		// more input than the adapter's queue holds: it sheds, and what it sheds may be a member's message, so
+		// "input from non-members leaves the session successful" is only asserted below the capacity
+		onlyNonMembers = false
 	}
 	if bigBurst {
 		o.Classes = append(o.Classes, "burst>1000")
@@ -283,91 +294,114 @@ func runC10Adapters(c c10aCase) *vh.Outcome {
 			o.Discard = "ecdsa-keygen-not-run-live"
 			return o
 		}
-		var mu sync.Mutex
-		parties := make([]adapter, c.N)
-		for i := range parties {
-			parties[i] = newAdapter(c.Scheme, ids[i])
-			if c.Phase == "sign" {
-				if err := parties[i].SetShareData(pool.shares[i]); err != nil {
-					o.Discard = "share-unusable"
-					return o
-				}
-			}
-		}
-		emittedCount := 0
-		trigger := make(chan struct{})
-		var once sync.Once
-		for i, p := range parties {
-			from := ids[i]
-			p.Init(ids, c.T, func(msg []byte, bc bool, to uint16) {
-				mu.Lock()
-				emittedCount++
-				fire := c.State == "running" && emittedCount > c.After
-				mu.Unlock()
-				if fire {
-					once.Do(func() { close(trigger) })
-				}
-				for j, q := range parties {
-					if ids[j] != from && (bc || ids[j] == to) {
-						q.OnMsg(msg, from, bc)
+		// one complete session with the input injected into the target (running: once After frames were emitted;
+		// finished: after every call has returned)
+		session := func(limit time.Duration) (allOK bool, firstErr string, fail *vh.Failure, discard string) {
+			var mu sync.Mutex
+			parties := make([]adapter, c.N)
+			for i := range parties {
+				parties[i] = newAdapter(c.Scheme, ids[i])
+				if c.Phase == "sign" {
+					if err := parties[i].SetShareData(pool.shares[i]); err != nil {
+						return false, "", nil, "share-unusable"
 					}
 				}
-			})
-		}
-		ctx, cancel := context.WithTimeout(context.Background(), 30*time.Second)
-		defer cancel()
-		chans := make([]chan error, c.N)
-		for i, p := range parties {
-			chans[i] = make(chan error, 1)
-			go func(p adapter, ch chan error) { ch <- start(p, ctx) }(p, chans[i])
-		}
-		var injFail *vh.Failure
-		injDone := make(chan struct{})
-		if c.State == "running" {
-			go func() {
-				defer close(injDone)
-				select {
-				case <-trigger:
-				case <-time.After(2 * time.Second): // the session emitted fewer frames than After: inject late
+			}
+			emittedCount := 0
+			after := c.After % (len(pool.frames) + 1)
+			trigger := make(chan struct{})
+			var once sync.Once
+			for i, p := range parties {
+				from := ids[i]
+				p.Init(ids, c.T, func(msg []byte, bc bool, to uint16) {
+					mu.Lock()
+					emittedCount++
+					fire := c.State == "running" && emittedCount > after
+					mu.Unlock()
+					if fire {
+						once.Do(func() { close(trigger) })
+					}
+					for j, q := range parties {
+						if ids[j] != from && (bc || ids[j] == to) {
+							q.OnMsg(msg, from, bc)
+						}
+					}
+				})
+			}
+			ctx, cancel := context.WithTimeout(context.Background(), limit)
+			defer cancel()
+			chans := make([]chan error, c.N)
+			for i, p := range parties {
+				chans[i] = make(chan error, 1)
+				go func(p adapter, ch chan error) { ch <- start(p, ctx) }(p, chans[i])
+			}
+			var injFail *vh.Failure
+			injDone := make(chan struct{})
+			if c.State == "running" {
+				go func() {
+					defer close(injDone)
+					select {
+					case <-trigger:
+					case <-time.After(500 * time.Millisecond): // the session emitted fewer frames than expected: inject late
+					}
+					injFail = inject(parties[target])
+				}()
+			} else {
+				close(injDone)
+			}
+			allOK = true
+			for i, ch := range chans {
+				err, f := waitCall(ch, limit+30*time.Second, fmt.Sprintf("%s of party %d", c.Phase, ids[i]))
+				if f != nil {
+					return false, "", f, ""
 				}
-				injFail = inject(parties[target])
-			}()
-		} else {
-			close(injDone)
-		}
-		allOK := true
-		for i, ch := range chans {
-			err, f := waitCall(ch, 60*time.Second, fmt.Sprintf("%s of party %d", c.Phase, ids[i]))
-			if f != nil {
-				o.Fail = f
-				return o
+				if err != nil {
+					allOK = false
+					if firstErr == "" {
+						firstErr = err.Error()
+					}
+				}
 			}
-			if err != nil {
-				allOK = false
-				o.Info = map[string]interface{}{"first_error": err.Error()}
+			<-injDone
+			if injFail != nil {
+				return allOK, firstErr, injFail, ""
+			}
+			if c.State == "finished" {
+				if !allOK {
+					return false, firstErr, nil, "undisturbed-session-failed"
+				}
+				if f := inject(parties[target]); f != nil {
+					return allOK, firstErr, f, ""
+				}
+			}
+			return allOK, firstErr, nil, ""
+		}
+		limit := 4 * time.Second
+		if c.Scheme == "ecdsa" {
+			limit = 15 * time.Second
+		}
+		allOK, firstErr, f, discard := session(limit)
+		if f == nil && discard == "" && c.State == "running" && onlyNonMembers && !allOK {
+			// input that must be ignored, yet the session failed: rule out a slow machine before judging
+			o.Classes = append(o.Classes, "rerun-with-long-deadline")
+			allOK, firstErr, f, discard = session(2 * time.Minute)
+			if f == nil && discard == "" && !allOK {
+				f = vh.Failf(site("non-member-input-had-effect"), "all input came under transport senders that are not members of the session, yet the session did not complete successfully (twice, the second time with a 2 minute deadline): %s", firstErr)
 			}
 		}
-		<-injDone
-		if injFail != nil {
-			o.Fail = injFail
+		if f != nil {
+			o.Fail = f
 			return o
 		}
-		if c.State == "finished" {
-			if !allOK {
-				o.Discard = "undisturbed-session-failed"
-				return o
-			}
-			if o.Fail = inject(parties[target]); o.Fail != nil {
-				return o
-			}
-		} else if onlyNonMembers && !allOK {
-			o.Fail = vh.Failf(site("non-member-input-had-effect"), "all input came under transport senders that are not members of the session, yet the session did not complete successfully: %v", o.Info)
+		if discard != "" {
+			o.Discard = discard
 			return o
 		}
 		if allOK {
 			o.Classes = append(o.Classes, "session-succeeded")
 		} else {
 			o.Classes = append(o.Classes, "session-aborted-by-member-input")
+			o.Info = map[string]interface{}{"first_error": firstErr}
 		}
 	}
 	o.NonTrivial = parsed > 0
